@@ -1,0 +1,9 @@
+//go:build verif
+
+// Contracts for the deductive verification in /verif (comment-only; compiled code is unaffected).
+package handlers
+
+// the identity used in permission decisions is exactly the client name the interceptor stored (C19), or empty
+//@ func GenerateCredentials
+//@ ensures [client] result != nil && fresh(result) && result.Client == (if hastype(ctxval(ctx, tagof("*interceptors.ClientName")), "string") then unbox(ctxval(ctx, tagof("*interceptors.ClientName")), "string") else "")
+//@ ensures [ip] result.IP == (if hastype(ctxval(ctx, tagof("*interceptors.ExternalIP")), "string") then unbox(ctxval(ctx, tagof("*interceptors.ExternalIP")), "string") else "")
